@@ -209,10 +209,12 @@ class C02(ValCheck):
                   "bodies read one are not run.")
     technique = ("Coq invariant proof over all schedules of a dataflow engine with shared data copies + observation-differential runs "
                  "of generated JDF programs (two ptgpp dependency back-ends) against the extracted sequential execution")
-    rule = ("hazard-free programs from the DAG templates (overlap, chain, fan, bcast_gather, diamond, split_merge, pipeline2d, tri, mixed, "
+    rule = ("hazard-free programs from the DAG templates (wbforms, overlap, chain, fan, bcast_gather, diamond, split_merge, pipeline2d, tri, mixed, "
             "bcast_read, relay): data flows with OVERLAPPING input guards (a guarded task dependency followed by an unguarded or "
             "weaker-guarded D(..) fallback: first match wins) next to a second task-fed flow, in-place RW chains from D(k), NEW tiles broadcast to READ consumers, ternary/guarded inputs, control "
-            "gathers ordering a reader before an overwriter, write-backs; each under 4 configurations scheduler[@ia]:threads covering "
+            "gathers ordering a reader before an overwriter, final write-backs into an element other than the one the copy came from in "
+            "every spelling (unconditional, binary guard, ternary with the element on the true side, ternary with the element on the false "
+            "side next to a successor task; guards true and false over the instances; copies from D(a), forwarded, or NEW); each under 4 configurations scheduler[@ia]:threads covering "
             "both back-ends and threads 1,2,4,16, schedulers rotated; non-trivial = at least 2 instances, 1 data edge between tasks; "
             "distinct = program text")
     trusted = ("tools/jdfgen.py (JDF and model printers of one structure), harness/ptg_driver.c + ptg_rt.h (log of values and stamps), "
@@ -389,6 +391,7 @@ class C02(ValCheck):
         d["backends"] = {"ht": 0, "ia": 0}
         d["rw_from_collection"] = d["new_tiles"] = d["writebacks"] = d["data_edges"] = 0
         d["programs_with_overlapping_input_guards"] = d["flow_instances_with_overlapping_input_guards"] = 0
+        d["writeback_spellings"] = {}
         for c in cases:
             try:
                 hd, pt = c.split("|", 1)
@@ -398,6 +401,8 @@ class C02(ValCheck):
             for cf in hd.split()[1:]:
                 d["backends"][split_cfg(cf)[0]] += 1
             sem = pv.Sem(p)
+            for k, v in pv.writeback_forms(p).items():
+                d["writeback_spellings"][k] = d["writeback_spellings"].get(k, 0) + v
             ov = pv.overlapping_flows(p)
             d["programs_with_overlapping_input_guards"] += 1 if ov else 0
             d["flow_instances_with_overlapping_input_guards"] += ov
